@@ -1355,6 +1355,10 @@ class Interp:
         if isinstance(container, str) and isinstance(item, str):
             return item in container
         if isinstance(container, SObj):
+            if '_members_' in container.attrs and is_concrete(item):
+                # container object whose membership test is inherited from a library base class (e.g. networkx graph):
+                # the contract states its member set explicitly
+                return item in container.attrs['_members_']
             r = self.call_method(container, '__contains__', [item], {})
             return r
         raise Unsupported('membership in %r' % (container,))
@@ -2132,11 +2136,17 @@ class Interp:
             node = self.parse_clause(cl)
             for sub in self.conjuncts(node):
                 self.pure += 1
+                mark = len(self.ctx.pc)
                 try:
-                    mark = len(self.ctx.pc)
                     g = self.tr(sub, env, +1)
                     side = self.ctx.pc[mark:]
                     del self.ctx.pc[mark:]
+                except PyRaise as e:
+                    # the clause cannot even be evaluated on this state (e.g. the result has another rank than the
+                    # contract describes): it does not hold
+                    side = []
+                    del self.ctx.pc[mark:]
+                    g = False
                 finally:
                     self.pure -= 1
                 goal = z3.Implies(z3.And(*side), b2z(g)) if side else b2z(g)
